@@ -84,6 +84,27 @@ func (area) Run(line string) string {
 	})
 }
 
+// linkModelArea: the destination is a symbolic link and the WHOLE tree (the link and its target included) is compared
+// with the resolving model, which follows the link as the kernel does.
+type linkModelArea struct{}
+
+// Run executes one line with `dst -> real`.
+func (linkModelArea) Run(line string) string {
+	return guarded(func() string {
+		o := execute(line, true)
+		if o.bad {
+			return "bad-op"
+		}
+		return o.res + format(o.nodes)
+	})
+}
+
+// Gen emits the sandboxes of linkArea, marked `dl:1`.
+func (linkModelArea) Gen(r *hx.Rng, n int, tier string, emit func(string)) {
+	k := 0
+	linkArea{}.Gen(r, n, tier, func(s string) { k++; emit(fmt.Sprintf("%s dl:%d", s, 1+k%5)) })
+}
+
 // Run of linkArea: the same sandbox and archive twice — once with `dst` a symbolic link to the sibling directory `real`
 // that holds what the sandbox put into the destination, once with `dst` that directory itself.  The two trees must be
 // the same after renaming (extracting through a linked destination is extracting into its target).  Archives with an
@@ -172,6 +193,7 @@ func execute(line string, dstLink bool) (o outcome) {
 	limit := -1
 	via := ""
 	times := 1
+	dlKind := 1 // how `dst` points at `real` when it is a link (dl:<k>)
 	for _, w := range f[2:] {
 		p := strings.Split(w, ":")
 		switch {
@@ -179,6 +201,8 @@ func execute(line string, dstLink bool) (o outcome) {
 			via = p[1]
 		case p[0] == "r" && len(p) == 2:
 			times = hx.Atoi(p[1])
+		case p[0] == "dl" && len(p) == 2:
+			dlKind = hx.Atoi(p[1])
 		case p[0] == "w" && len(p) == 2:
 			limit = hx.Atoi(p[1])
 		case p[0] == "i" && p[1] == "d" && len(p) == 4:
@@ -203,7 +227,19 @@ func execute(line string, dstLink bool) (o outcome) {
 	}
 	dst := filepath.Join(t, "dst")
 	if dstLink {
-		must(os.Symlink("real", dst))
+		switch dlKind {
+		case 2: // absolute
+			must(os.Symlink(filepath.Join(t, "real"), dst))
+		case 3: // with dots and a trailing slash
+			must(os.Symlink("./real/", dst))
+		case 4: // a chain of two links
+			must(os.Symlink("real", filepath.Join(t, "mid")))
+			must(os.Symlink("mid", dst))
+		case 5: // out of the sandbox and back
+			must(os.Symlink("../"+base+"/real", dst))
+		default:
+			must(os.Symlink("real", dst))
+		}
 	}
 	for _, e := range entries {
 		if e.k != "x" && e.k != "g" && filepath.Join(dst, e.name) == dst {
@@ -454,7 +490,8 @@ func buildZip(entries []entry) ([]byte, bool) {
 	var buf bytes.Buffer
 	zw := zip.NewWriter(&buf)
 	corrupt := make([]bool, len(entries))
-	resize := make([]int, len(entries)) // change of the declared uncompressed size in the central directory
+	resize := make([]int, len(entries))    // change of the declared uncompressed size in the central directory
+	unopen := make([]string, len(entries)) // "M": compression method 99, "H": local file header destroyed
 	for i, e := range entries {
 		fh := &zip.FileHeader{Name: e.name, Method: zip.Store}
 		mode := os.FileMode(e.mode & 0o777)
@@ -466,6 +503,10 @@ func buildZip(entries []entry) ([]byte, bool) {
 				bad = false
 				resize[i] = map[string]int{"L": 1, "S": -1}[e.link]
 			}
+			if e.link == "M" || e.link == "H" { // the entry cannot be opened
+				bad = false
+				unopen[i] = e.link
+			}
 		case "d":
 			bad = false
 			mode |= os.ModeDir
@@ -473,11 +514,21 @@ func buildZip(entries []entry) ([]byte, bool) {
 			mode |= os.ModeSymlink
 			payload = []byte(e.link)
 			bad = e.pres == 0 && len(e.link) > 0
+			if e.length == 99 {
+				unopen[i] = "M"
+			} else if e.length == 98 {
+				unopen[i] = "H"
+			}
 		default:
 			return nil, true
 		}
 		if strings.HasSuffix(e.name, "/") { // archive/zip writes such an entry without a payload
 			payload = nil
+			bad = false
+			resize[i] = 0
+			unopen[i] = ""
+		}
+		if unopen[i] != "" {
 			bad = false
 			resize[i] = 0
 		}
@@ -509,12 +560,12 @@ func buildZip(entries []entry) ([]byte, bool) {
 			b[off] ^= 0xff
 		}
 	}
-	patchDeclaredSizes(b, resize)
+	patchDeclaredSizes(b, resize, unopen)
 	return b, false
 }
 
 // patchDeclaredSizes changes the uncompressed size recorded in the central directory of the i-th entry by resize[i].
-func patchDeclaredSizes(b []byte, resize []int) {
+func patchDeclaredSizes(b []byte, resize []int, unopen []string) {
 	le16 := func(o int) int { return int(b[o]) | int(b[o+1])<<8 }
 	le32 := func(o int) int { return le16(o) | le16(o+2)<<16 }
 	eocd := bytes.LastIndex(b, []byte{0x50, 0x4b, 0x05, 0x06})
@@ -526,6 +577,14 @@ func patchDeclaredSizes(b []byte, resize []int) {
 		if resize[i] != 0 {
 			v := le32(pos+24) + resize[i]
 			b[pos+24], b[pos+25], b[pos+26], b[pos+27] = byte(v), byte(v>>8), byte(v>>16), byte(v>>24)
+		}
+		switch unopen[i] {
+		case "M": // compression method 99 in the central directory: archive/zip has no decompressor for it
+			b[pos+10], b[pos+11] = 99, 0
+		case "H": // the signature of the local file header this entry points at
+			if lh := le32(pos + 42); lh+4 <= len(b) {
+				b[lh] ^= 0xff
+			}
 		}
 		pos += 46 + le16(pos+28) + le16(pos+30) + le16(pos+32)
 	}
@@ -606,5 +665,5 @@ func format(nodes []node) string {
 func main() {
 	syscall.Umask(0)
 	signal.Ignore(syscall.SIGXFSZ) // a write beyond RLIMIT_FSIZE must fail with EFBIG instead of killing the harness
-	hx.Main(map[string]hx.Area{"extract": area{}, "dstlink": linkArea{}})
+	hx.Main(map[string]hx.Area{"extract": area{}, "dstlink": linkArea{}, "dstlinkm": linkModelArea{}})
 }
